@@ -126,6 +126,13 @@ def check_no_hidden_state(rep, src, rule, sites, why, allowed=None):
         rep.saw_func(fn)
         ws = persistent_writes(src, fn, (allowed or {}).get(site, ()))
         what = 'writes nothing that outlives the call'
+        # a memoising decorator is such a write (the cache belongs to the function object), and it hands the SAME result object to every
+        # caller with equal arguments: a mutable result edited by one caller is what the next one gets
+        memo = [d for d in fn.node.decorator_list if any(k in norm(d) for k in ('lru_cache', 'functools.cache', 'cached_property', 'memoize', 'memoise'))
+                or norm(d) in ('cache',)]
+        if memo:
+            rep.fail(rule, fn.site, 'no memo of results', '%s is decorated with %s: every call with equal arguments returns the same result object, so a caller that edits '
+                     'what it got (a list, a paragraph) changes what later calls return; %s' % (fn.qual, norm(memo[0])[:60], why), where='%s:%d' % (fn.module.relpath, fn.node.lineno))
         if ws:
             rep.fail(rule, fn.site, what, '%s stores into %s (line %d): %s' % (fn.qual, ws[0][0], ws[0][1], why), where='%s:%d' % (fn.module.relpath, ws[0][1]))
         else:
@@ -352,3 +359,30 @@ def check_error_construction(rep, src, rule, modname, only=None, minimum=1):
     if n < minimum:
         raise AnalysisError('%s: only %d error messages with a format examined' % (modname, n))
     return n
+
+
+class SoftErrors:
+    """reports of a language-level / shape-level reading go through this: what it *finds* (a witness) is reported as before; that it does
+    not *apply* (the code left its vocabulary) is an INFO line as long as `holds()` -- the interpreted scenarios of the same clause on
+    the same code all held -- and an analysis error otherwise.  A rule that is skipped this way lowers its minimum instance count."""
+
+    def __init__(self, rep, holds, what):
+        self._rep, self._holds, self._what = rep, holds, what
+
+    def error(self, rule, msg):
+        if self._holds():
+            self._rep.info.append('%s: the language-level reading does not apply (%s); decided on %s' % (rule, msg[:220], self._what))
+            self._rep.min_instances[rule] = 0
+        else:
+            self._rep.error(rule, msg)
+
+    def guard(self, rule, fn, *a, **kw):
+        from ..core import AnalysisError as _AE
+        try:
+            return fn(self, *a, **kw)
+        except _AE as e:
+            self.error(rule, str(e))
+        return None
+
+    def __getattr__(self, name):
+        return getattr(self._rep, name)
